@@ -29,13 +29,18 @@ THEOREMS = [
     "HgVerif.DynLife.swRun_no_violation",
     "HgVerif.DynLife.swRun_clean_at_return",
     "HgVerif.DynLife.swRun_clean_at_release",
+    "HgVerif.DynLife.sw_outgoing_stopped_at_key_change",
+    "HgVerif.DynLife.sw_outgoing_stop_error_reaches_caller",
+    "HgVerif.DynLife.swRun_first_error",
+    "HgVerif.DynLife.swRun_retire_first_prefix",
     "HgVerif.DynLife.reduce_run_no_violation",
     "HgVerif.DynLife.reduce_clean_at_return",
     "HgVerif.DynLife.reduce_clean_at_release",
     "HgVerif.DynLife.reduce_stop_error_reaches_caller",
 ]
 CXX_TARGETS = ["hgv_dynlife"]
-RULE = ("dynlife streams: a map_ (or switch_, or a reduce_ with a node / sub-graph combiner) over child graphs of 1-3 chained probe nodes; key histories with batches "
+RULE = ("dynlife streams: a map_ (or switch_ with an owned TS<int> output / a forwarding output - branches returning to_tsb / to_tsl "
+        "results as is -, or a reduce_ with a node / sub-graph combiner) over child graphs of 1-3 chained probe nodes; key histories with batches "
         "(2-4 keys in the first cycle, later batches), one key per cycle, removals, re-adds (new generation), replace-all, value "
         "ticks and idle cycles; 0-3 faults: the k-th probe start call, the n-th evaluation of probe i of key K, the stop of probe i "
         "of key K (pairs such as start fault + stop fault in the rollback, evaluate fault followed by stop fault, stop fault during "
@@ -241,7 +246,7 @@ def gen_reduce_faults(rng, n, ncomb, how_many, shape):
 
 def gen_case(rng, i):
     r = rng.random()
-    kind = "map" if r < 0.55 else ("switch" if r < 0.72 else "reduce")
+    kind = "map" if r < 0.48 else ("switch" if r < 0.56 else "switchb" if r < 0.68 else "switchl" if r < 0.75 else "reduce")
     n = rng.choice([1, 1, 2, 2, 3])
     cleanup = rng.random() < 0.75
     nf = rng.choice([0, 1, 1, 1, 2, 2, 3])
@@ -251,6 +256,30 @@ def gen_case(rng, i):
         return mk(i, kind, n, cleanup, gen_reduce_faults(rng, n, ncomb, nf, shape) if (nf or shape != "any") else [], cycles)
     cycles, used, created = map_history(rng) if kind == "map" else switch_history(rng)
     return mk(i, kind, n, cleanup, gen_faults(rng, n, used, created, nf), cycles)
+
+
+def switch_directed(add, kind, n, cl):
+    """branch changes of a switch_ (kind: owned output `switch`, forwarding output `switchb` / `switchl`): key never changes
+    (control), 1-3 key changes, faults in the outgoing and in the incoming branch"""
+    add(kind, n, cl, [], [["=1"], ["~"], ["=1"], ["~"]])                            # control: the key never changes
+    add(kind, n, cl, ["fx 1 0"], [["=1"], ["~"], ["=1"]])                           # ... stop fault at the parent's stop
+    add(kind, n, cl, [], [["=1"], ["=2"]])                                          # one change, the run ends right after it
+    add(kind, n, cl, [], [["=1"], ["~"], ["=2"], ["~"]])
+    add(kind, n, cl, [], [["=1"], ["=2"], ["=3"]])                                  # two changes (the retired slot is reused)
+    add(kind, n, cl, [], [["=1"], ["=2"], ["~"], ["=1"], ["=3"], ["~"]])            # three changes, a re-activated key
+    for p in range(n):
+        add(kind, n, cl, ["fx 1 %d" % p], [["=1"], ["=2"], ["~"]])                  # stop fault of the OUTGOING branch
+        add(kind, n, cl, ["fx 2 %d" % p], [["=1"], ["=2"], ["=3"], ["~"]])          # ... at the second change
+        add(kind, n, cl, ["fx 2 %d" % p], [["=1"], ["=2"], ["~"]])                  # stop fault of the incoming branch (parent stop)
+    for k in range(n + 1, 2 * n + 1):
+        add(kind, n, cl, ["fs %d" % k], [["=1"], ["=2"], ["~"]])                    # start fault of the INCOMING branch
+    add(kind, n, cl, ["fs %d" % (2 * n + 1)], [["=1"], ["=2"], ["=3"]])
+    add(kind, n, cl, ["fs %d" % (n + 1), "fx 1 0"], [["=1"], ["=2"]])               # outgoing stop fault wins over the incoming start fault
+    add(kind, n, cl, ["fs %d" % (n + 1), "fx 2 0"], [["=1"], ["=2"]])               # start fault + stop fault in the rollback
+    add(kind, n, cl, ["fe 1 0 2"], [["=1"], ["~"], ["=2"]])                         # evaluate fault in the first branch before the change
+    add(kind, n, cl, ["fe 2 %d 1" % (n - 1)], [["=1"], ["=2"], ["~"]])              # evaluate fault of the incoming branch at its activation
+    add(kind, n, cl, ["fe 2 0 2", "fx 2 0"], [["=1"], ["=2"], ["~"]])               # evaluate fault followed by stop fault
+    add(kind, n, cl, ["fe 2 0 2", "fx 1 0"], [["=1"], ["=2"], ["~"]])
 
 
 def directed(base):
@@ -287,13 +316,9 @@ def directed(base):
             # re-add: the second generation fails to start / to stop
             add("map", n, cl, ["fs %d" % (2 * n + 1)], [["+1", "+2"], ["-1"], ["+1"]])
             add("map", n, cl, ["fx 1 0"], [["+1", "+2"], ["-2"], ["+2"], ["-2"]])
-            # switch_: branch change with a failing stop of the old / start of the new branch, parent stop
-            add("switch", n, cl, ["fx 1 %d" % (n - 1)], [["=1"], ["=2"], ["~"]])
-            add("switch", n, cl, ["fs %d" % (n + 1)], [["=1"], ["=2"], ["~"]])
-            add("switch", n, cl, ["fx 1 0"], [["=1"], ["~"]])
-            add("switch", n, cl, ["fe 2 0 2", "fx 2 0"], [["=1"], ["=2"], ["~"]])
-            add("switch", n, cl, ["fs %d" % (n + 1), "fx 2 0"], [["=1"], ["=2"]])
-            add("switch", n, cl, [], [["=1"], ["~"], ["=2"], ["=2"], [], ["=1"]])
+            # switch_: branch changes, owned and forwarding output
+            for kind in ("switch", "switchb", "switchl"):
+                switch_directed(add, kind, n, cl)
             # reduce_: a stop fault as the ONLY fault (root combiner / deeper combiner / every one), normal end of run
             for o in (1, 2):
                 add("reduce", n, cl, ["fx %d %d" % (o, n - 1)], [["+1", "+2", "+3"], ["+2"]])
@@ -575,6 +600,13 @@ def features(stream, case, out):
         f.append("dyn:re-created-key")
     if any(ph == "rel" for (ph, _, _) in p["seq"]):
         f.append("dyn:stops-at-release")
+    if p["kind"].startswith("switch"):
+        nb = sum(1 for t in toks if t.startswith("G<"))
+        f.append("dyn:%s-key-changes=%s" % (p["kind"], "none" if nb <= 1 else str(min(nb - 1, 3))))
+        if nb >= 2 and any(t.startswith("px!") for (ph, t, _) in p["seq"] if ph not in ("stop", "rel")):
+            f.append("dyn:%s-outgoing-stop-fault" % p["kind"])
+        if nb >= 2 and any(t.startswith("ps!") for t in toks):
+            f.append("dyn:%s-incoming-start-fault" % p["kind"])
     if p["kind"] == "reduce":
         ords = [int(t[2:].split("#")[0]) for t in toks if t.startswith("G<")]
         f.append("dyn:reduce-combiners=%s" % ("0" if not ords else "1-2" if max(ords) <= 2 else "3-6" if max(ords) <= 6 else "7+"))
